@@ -321,6 +321,11 @@ func main() {
 	violations := 0
 	replayDir := filepath.Join(buildDir, "replay")
 	os.MkdirAll(replayDir, 0o755)
+	if old, _ := filepath.Glob(filepath.Join(replayDir, id+"-*.json")); len(old) > 0 { // replays of earlier runs of this property
+		for _, f := range old {
+			os.Remove(f)
+		}
+	}
 	knownPrinted := map[string]bool{}
 	report := func(sig, what string, payload interface{}, suffix string) {
 		for _, k := range known.Findings {
